@@ -1,0 +1,21 @@
+//go:build verif
+
+// Contracts for dispatch hooks (property C37, reduced core). Comment-only.
+//
+// Error agreement: once the dispatch hook has been started for a call, every error response the
+// handler writes is also reported to the hook's end callback, i.e. *handlerErr is non-nil when
+// writeHttpError is reached (the deferred cleanup passes *handlerErr to OnDispatchEnd).
+
+package vgirpc
+
+//@ func (*HttpServer).handleUnary
+//@   property C37
+//@   at call (*HttpServer).writeHttpError after (*HttpServer).startDispatchHook assert [erragree] handlerErr != nil
+
+//@ func (*HttpServer).handleStreamInit
+//@   property C37
+//@   at call (*HttpServer).writeHttpError after (*HttpServer).startDispatchHook assert [erragree] handlerErr != nil
+
+//@ func (*HttpServer).handleStreamExchange
+//@   property C37
+//@   at call (*HttpServer).writeHttpError after (*HttpServer).startDispatchHook assert [erragree] handlerErr != nil
